@@ -55,6 +55,13 @@ def h_tridiag(B, n):
     qa = Q[0]
     B.eq("the first basis vector is v / |v|: q0 . q0 == 1", [sum(list(qa * qa), 0)], [1])
     B.eq("T[0,0] == q0^T A q0", [T[0, 0]], [sum(qa[i] * sum(A[i, j] * qa[j] for j in range(n)) for i in range(n))])
+    if broke and n == 2:
+        # a breakdown is legitimate only if the residual of the step really vanishes (documented tolerance tol = 1e-12)
+        Aq = [sum(A[i, j] * qa[j] for j in range(n)) for i in range(n)]
+        r = [Aq[i] - T[0, 0] * qa[i] for i in range(n)]
+        rr = sum((x * x for x in r), 0)
+        B.holds("breakdown only when the residual norm is below the tolerance: |A q0 - T00 q0|^2 <= tol^2",
+                (sc._lift(rr) <= sc.SR(sc.q(1e-12)) * sc.SR(sc.q(1e-12)) * sc.SR(sc.q(1.000001))) if B.mode == "sym" else bool(float(rr) <= 1.001e-24))
     if not broke:
         QQt = Q @ Q.T
         B.eq("no breakdown: the basis is orthonormal", list(QQt.reshape(-1)), list(np.eye(n).reshape(-1)))
@@ -91,7 +98,7 @@ def scenarios(tier, seed):
 
 
 HARNESSES = {"tridiag": h_tridiag, "quadrature": h_quadrature}
-OPTS = {"quick": {"max_paths": 100, "budget_s": 600, "jobs": 4, "branch_timeout_ms": 30000, "obl_timeout_ms": 120000},
+OPTS = {"quick": {"max_paths": 100, "budget_s": 1800, "jobs": 4, "branch_timeout_ms": 30000, "obl_timeout_ms": 120000},
         "thorough": {"max_paths": 400, "budget_s": 2400, "jobs": 4, "branch_timeout_ms": 60000, "obl_timeout_ms": 300000}}
 
 META = {
